@@ -36,6 +36,51 @@ def main():
     before = _sha(pt)
     res = {"digests": [], "outcomes": {}, "ctor_exc": None, "import_exc": None}
     plan = None
+    if job.get("entry") == "cli":
+        # the process IS the command-line tool: its first contact with the library is importing the CLI module, its first
+        # parser is the one main() builds.  One invocation of main() per item, in this process, in order.
+        import io
+        try:
+            from simple_ddl_parser.cli import main as cli_main
+        except BaseException as e:  # noqa
+            res["import_exc"] = repr(e)[:300]
+            os.write(out_fd, (json.dumps(res) + "\n").encode())
+            return 0
+        for n, it in enumerate(job["items"]):
+            path = os.path.join(os.getcwd(), "cli_item_%d.sql" % n)
+            try:
+                with open(path, "w", encoding="utf-8") as f:
+                    f.write(it["ddl"])
+            except (UnicodeError, OSError):
+                res["digests"].append("unwritable")
+                continue
+            argv = ["sdp", path, "--no-dump"]
+            if (it.get("run") or {}).get("output_mode"):
+                argv += ["-o", it["run"]["output_mode"]]
+            old_argv, old_out = sys.argv, sys.stdout
+            buf = io.StringIO()
+            sys.argv, sys.stdout = argv, buf
+            try:
+                cli_main()
+                o = ["ok", buf.getvalue()]
+            except SystemExit as e:
+                o = ["exit", repr(e.code), buf.getvalue()]
+            except BaseException as e:  # noqa
+                o = core.outcome_of_exception(e)
+                if res["ctor_exc"] is None and type(e).__name__ in ("ImportError", "ModuleNotFoundError", "YaccError", "VersionError", "SyntaxError"):
+                    res["ctor_exc"] = ["cli-exc", type(e).__name__, str(e)[:200]]
+            finally:
+                sys.argv, sys.stdout = old_argv, old_out
+                try:
+                    os.remove(path)
+                except OSError:
+                    pass
+            res["digests"].append(core.digest_of(o)[:20])
+        after = _sha(pt)
+        res["rewritten"] = before != after
+        res["cache_present_after"] = after is not None
+        os.write(out_fd, (json.dumps(res) + "\n").encode())
+        return 0
     try:
         import simple_ddl_parser
         assert os.path.abspath(simple_ddl_parser.__file__).startswith(os.path.abspath(tree))
